@@ -12,6 +12,13 @@ def satListMultiplicity  : Rat := (1 : Rat)
 
 def satMultiMultiplicity (count : Rat) : Rat := count
 
+def approvalScoreFnLoop : Rat → List (Bool × Rat) → Rat
+  | score, [] => score
+  | score, x :: xs => (if x.1 then (approvalScoreFnLoop ((score + x.2)) xs) else (approvalScoreFnLoop score xs))
+
+def approvalScoreFn (xs : List (Bool × Rat)) : Rat :=
+  (fun r => r) (approvalScoreFnLoop ((0 : Rat)) xs)
+
 def approvalScoreInit  : Rat := (0 : Rat)
 
 def approves (inBallot : Bool) : Bool := inBallot
